@@ -4,9 +4,15 @@ import sys, json
 ID=sys.argv[1]; n=sys.argv[2] if len(sys.argv)>2 else "1"
 avoid=""
 import os
-mp=f"/verif/seeded/{ID}/meta.json"
-if n!="1" and os.path.exists(mp):
-    avoid="\n- An earlier seeding already used this idea, so pick a DIFFERENT mechanism and a different code site: "+json.load(open(mp)).get("needs","")+"."
+import glob
+prev=[]
+if n!="1":
+    for mp in sorted(glob.glob(f"/verif/seeded/{ID}/meta.json")+glob.glob(f"/verif/seeded/{ID}-*/meta.json")):
+        m=json.load(open(mp))
+        site=", ".join(sorted({l[6:].strip() for l in open(os.path.dirname(mp)+"/patch.diff") if l.startswith("+++ b/")}))
+        prev.append(f"({site}) {m.get('needs','')}")
+if prev:
+    avoid="\n- Earlier seedings already used the following ideas, so pick a DIFFERENT mechanism and a different code site (a different file if the property's code spans several): "+" ;; ".join(prev)+"."
 p=[json.loads(l) for l in open('/verif/properties.jsonl') if json.loads(l)['id']==ID][0]
 wt=f"/tmp/seed-{ID}-{n}"
 print(f"""You are helping to evaluate a verification effort for the Go project baidu/bfe (a layer-7 load balancer). Your job: produce ONE realistic change to bfe that BREAKS the following semantic property while the code still compiles and bfe's existing tests still pass.
